@@ -697,9 +697,10 @@ impl<T> ExternalError<T> for Result<T, pem::PemError> {
 	fn _err(self) -> Result<T, Error> {
 		self.map_err(|e| {
 			Error::PemError(match e {
-				// The offending line is echoed by pem's Display impl; when parsing a private
-				// key that line can be key material, so don't put it into the error text
+				// The offending input is echoed by pem's Display impl; when parsing a private
+				// key that text can be key material, so don't put it into the error text
 				pem::PemError::InvalidHeader(_) => "invalid header".to_string(),
+				pem::PemError::MismatchedTags(_, _) => "mismatching BEGIN and END tags".to_string(),
 				e => e.to_string(),
 			})
 		})
